@@ -256,6 +256,56 @@ def spatial_bounds(w: int, h: int, d: int, x: int, y: int, z: int, c0: bool, cn:
     return hx.end(_agree(env, ref + [new], ["i0", "new", "ghost"]) is True)
 
 
+def placement_half(nx: int, ny: int, same: bool) -> bool:
+    """
+    post: _
+    """
+    # (1) non-integral coordinates in REAL grid worlds: positions are exact rationals n/2 (fractions.Fraction keeps the
+    #     arithmetic on symbolic ints linear); a point less than one cell outside the grid is outside the grid
+    # (2) adding a RESIDENT AGENT OBJECT again is rejected and changes nothing - not even its position
+    from fractions import Fraction
+    hx.begin()
+    kind = hx.P['world']
+    m = Model()
+    env = _world(m, kind)
+    ww, hh = env.width, env.height
+    x, y = Fraction(nx, 2), (Fraction(ny, 2) if hh > 0 else 0)
+    inside = (0 <= x <= ww - 1) and (hh == 0 or 0 <= y <= hh - 1)
+    a = Agent("a", m)
+    a.add_component(T1(a, m))
+    snap = _snapshot(m, env, [a])
+    raised = None
+    try:
+        env.add_agent(a, x, y)
+    except Exception as e:
+        raised = 'plain' if type(e) is Exception else type(e).__name__
+    if not inside:
+        hx.reach('outside_by_less_than_a_cell' if (-1 < x < ww and (hh == 0 or -1 < y < hh)) else 'far_outside')
+        if raised != 'plain':
+            return hx.end(hx.fail("placement outside the grid not rejected", pos=(x, y), extents=(ww, hh), raised=raised))
+        return hx.end(_unchanged(m, env, snap) is True)
+    hx.reach('placed')
+    p = a[Env.PositionComponent]
+    if raised is not None or p is None or p.x != x or p.y != y:
+        return hx.end(hx.fail("in-range placement must land exactly where requested", pos=(x, y), raised=raised,
+                              got=None if p is None else (p.x, p.y)))
+    # second add of the same object (same=True) or of another object with the taken id
+    again = a if same else Agent("a", m)
+    snap2 = _snapshot(m, env, [a, again])
+    pos_before = (p.x, p.y, p.z)
+    try:
+        env.add_agent(again, 0, 0)
+        return hx.end(hx.fail("second add of a resident accepted"))
+    except DuplicateAgentError:
+        pass
+    if _unchanged(m, env, snap2) is not True:
+        return hx.end(False)
+    q = a[Env.PositionComponent]
+    if q is not p or (q.x, q.y, q.z) != pos_before:
+        return hx.end(hx.fail("rejected second add changed the resident's position", before=pos_before, after=(q.x, q.y, q.z)))
+    return hx.end(True)
+
+
 def k_spatial_bounds_fp(ctx):
     from vf import kq_spatial
     return kq_spatial.place_fp(ctx)
@@ -392,6 +442,9 @@ def obligations(tier):
         X("history", history, parts=_hist_parts(k, ["plain"]) + _hist_parts(k if tier != "quick" else 2, ["space"]),
           labels=("added", "add_rejected", "removed", "remove_rejected", "looked_up"), labels_for=_hist_labels,
           timeout=300, group=3, encoded=senc, bounds={"history": "<= %d operations" % k}),
+        X("placement_half", placement_half, parts=[{"world": w} for w in ("grid", "line", "discrete")],
+          labels=("outside_by_less_than_a_cell", "far_outside", "placed"), timeout=600, encoded=senc,
+          bounds={"coordinates": "all half-integers n/2 (exact rationals)", "worlds": "real GridWorld(4,3), LineWorld(5), DiscreteWorld(3,2,2)"}),
         K("spatial_bounds_fp", k_spatial_bounds_fp, timeout=300, encoded=(Env.SpaceWorld.add_agent,),
           bounds={"doubles": "all finite positions; extents 0 or >= 1 (continuous world)"}),
     ]
